@@ -51,6 +51,8 @@ def run(model: RepoModel, rep, tier: str):
                        "produced, or is in the reasoned ignore table", 6)
     rep.rule("C10.R4", "inter-procedural flow: binding an argument to a parameter adds a SYMBOL_FLOW edge; matchers look the callee up at "
                        "the position the graph producer assigns to it", 4)
+    rep.rule("C10.R6", "nothing is dropped on the way: every (source, sink) pair is evaluated unless its own tags justify skipping it, and a "
+                       "method summary accumulates (unions) what each exit of the method contributes", 2)
     rep.rule("C10.R5", "worklist monotonicity: a node is re-enqueued only when a tag grew or once per propagation", 4)
 
     acc = accept_functions(ap)
@@ -294,6 +296,85 @@ def run(model: RepoModel, rep, tier: str):
     (rep.holds if ok else rep.violation)("C10.R5", key, TA, enq.node.lineno if enq else 0,
                                          "a node already in the worklist is not added twice" if ok else "_enqueue no longer deduplicates")
 
+    # ------------------------------------------------------------------ R6
+    ff = ta.methods.get("find_flows")
+    if ff is None:
+        raise AnalysisError("find_flows vanished")
+    fcfg = cfg_of(ff.node)
+    inner = [n for n in fcfg.g.nodes if fcfg.kind[n] == "iter" and isinstance(fcfg.stmt[n].iter, ast.Name) and fcfg.stmt[n].iter.id == ff.params[2]]
+    key = f"{TA}::TaintAnalysis.find_flows::every pair reaches the tag comparison"
+    if not inner:
+        rep.unknown("C10.R6", key, TA, ff.node.lineno, "pair loop not recognised")
+    else:
+        h = inner[0]
+        body = fcfg.loop_body_nodes[h]
+        compare_nodes = {n for n in body if fcfg.kind[n] == "test" and isinstance(fcfg.stmt[n], ast.If)
+                         and any(isinstance(x, ast.BinOp) and isinstance(x.op, ast.BitAnd) for x in ast.walk(fcfg.stmt[n].test))}
+        # skipping is only justified by the pair's own tags
+        tag_names = set()
+        for n in body:
+            st = fcfg.stmt.get(n)
+            if fcfg.kind[n] == "stmt" and isinstance(st, ast.Assign) and isinstance(st.value, ast.Call) \
+                    and (call_name(st.value) or "").split(".")[-1] in ("propagate_taint", "get_sink_tag_by_rules"):
+                for t in st.targets:
+                    for x in ast.walk(t):
+                        if isinstance(x, ast.Name):
+                            tag_names.add(x.id)
+        justified = set()
+        for (t, lab), b in fcfg.branch_of.items():
+            if t in body and isinstance(fcfg.stmt[t], ast.If) and any(isinstance(x, ast.Name) and x.id in tag_names for x in ast.walk(fcfg.stmt[t].test)):
+                justified.add(b)
+        pth = fcfg.back_paths_all_pass(h, compare_nodes | justified)
+        if pth is None and compare_nodes:
+            rep.holds("C10.R6", key, TA, fcfg.stmt[h].lineno, "every path through the pair loop reaches `(sink_tag & tag) != 0` (or branches on those tags)")
+        else:
+            skip = [fcfg.stmt[n] for n in (pth or []) if fcfg.kind.get(n) == "test"]
+            rep.violation("C10.R6", key, TA, (skip[0].lineno if skip else fcfg.stmt[h].lineno),
+                          "find_flows can move on to the next (source, sink) pair without comparing the pair's tags"
+                          + (f" (skip condition `{norm(skip[0].test)}`)" if skip else "")
+                          + ": tags are keyed by symbol/state id, not by graph position, so no structural pre-filter is sound; flows through "
+                            "globals, closures and re-used variables are dropped", path=fcfg.describe_path(pth or []))
+    gsum = None
+    for c in model.module("core/prelim_semantics.py").classes.values():
+        if "generate_and_save_analysis_summary" in c.methods:
+            gsum = c.methods["generate_and_save_analysis_summary"]
+    if gsum is None:
+        raise AnalysisError("generate_and_save_analysis_summary vanished")
+    summary_var = None
+    for n in walk_no_nested(gsum.node):
+        if isinstance(n, ast.Return) and isinstance(n.value, ast.Name):
+            summary_var = n.value.id
+    loops = [n for n in walk_no_nested(gsum.node) if isinstance(n, ast.For)]
+    n_acc, bad = 0, None
+    for lp in loops:
+        loop_vars = {x.id for x in ast.walk(lp.target) if isinstance(x, ast.Name)}
+        for n in ast.walk(lp):
+            if isinstance(n, ast.Call) and (call_name(n) or "").endswith("add_to_dict_with_default_set") and n.args \
+                    and isinstance(n.args[0], ast.Attribute) and isinstance(n.args[0].value, ast.Name) and n.args[0].value.id == summary_var:
+                n_acc += 1
+            if isinstance(n, ast.Assign):
+                for t in n.targets:
+                    if isinstance(t, ast.Subscript) and isinstance(t.value, ast.Attribute) and isinstance(t.value.value, ast.Name) \
+                            and t.value.value.id == summary_var and t.value.attr.endswith(("_symbols", "_content")):
+                        inner_vars = set(loop_vars)
+                        for l2 in ast.walk(lp):
+                            if isinstance(l2, ast.For) and any(x is n for x in ast.walk(l2)):
+                                inner_vars |= {x.id for x in ast.walk(l2.target) if isinstance(x, ast.Name)}
+                        key_vars = {x.id for x in ast.walk(t.slice) if isinstance(x, ast.Name)}
+                        if not (key_vars & inner_vars):
+                            bad = (n, t)
+    key = "core/prelim_semantics.py::generate_and_save_analysis_summary::summary entries accumulate over the method's exits"
+    if bad is not None:
+        n, t = bad
+        rep.violation("C10.R6", key, "core/prelim_semantics.py", n.lineno,
+                      f"`{norm(n)}` assigns the summary entry `{norm(t)}` inside the loop over the method's exit statements with a key that does "
+                      f"not depend on the iteration: each exit overwrites what the previous one contributed, so a value returned through an "
+                      f"earlier `return` is missing from the callee summary and its flow is lost")
+    elif n_acc:
+        rep.holds("C10.R6", key, "core/prelim_semantics.py", gsum.node.lineno, f"{n_acc} accumulating update(s) (add_to_dict_with_default_set); no overwriting store")
+    else:
+        rep.unknown("C10.R6", key, "core/prelim_semantics.py", gsum.node.lineno, "no accumulation recognised")
+
 
 # ---------------------------------------------------------------- self-test mutants
 def _m(kind, cls, func, pred, new=None, nth=0):
@@ -312,6 +393,14 @@ def _text(old, new):
 
 
 MUTANTS = [
+    ("pairs-prefiltered", TA, lambda src: __import__("sa.mutate", fromlist=["x"]).insert_before_stmt_where(
+        src, "TaintAnalysis", "find_flows", lambda st: isinstance(st, ast.Assign) and isinstance(st.targets[0], ast.Name) and st.targets[0].id == "original_manager",
+        "if not nx.has_path(self.sfg, source, sink):\n    continue"), "every pair reaches"),
+    ("return-states-overwritten", "core/prelim_semantics.py",
+     lambda src: __import__("sa.mutate", fromlist=["x"]).replace_stmt_where(
+         src, "P2PrelimSemanticAnalysis", "generate_and_save_analysis_summary",
+         lambda st: isinstance(st, ast.Expr) and isinstance(st.value, ast.Call) and "return_symbols" in norm(st.value),
+         "method_summary.return_symbols[SUMMARY_GENERAL_SYMBOL_ID.RETURN_SYMBOL_ID] = set(new_return_states)"), "summary entries accumulate"),
     ("field-write-tag-branch-renamed", TA, _text('elif operation == "field_write":\n            used_symbol_nodes, used_state_nodes = self.taint_analysis.get_stmt_used_symbol_and_state_by_pos(node)\n            for rule in self.rule_manager.all_sinks:\n                if rule.operation != "field_write":\n                    continue\n                if rule.name in node.operation:\n                    matching_rules.append(rule)\n        elif operation == "field_write":',
                                                'elif operation == "field_store":\n            used_symbol_nodes, used_state_nodes = self.taint_analysis.get_stmt_used_symbol_and_state_by_pos(node)\n            for rule in self.rule_manager.all_sinks:\n                if rule.operation != "field_write":\n                    continue\n                if rule.name in node.operation:\n                    matching_rules.append(rule)\n        elif operation == "field_store":'),
      "find_sinks::field_write"),
